@@ -1,10 +1,18 @@
-(* C04 -- uniformity of the randomizations.  Statements only; proofs in Lib/Shuffle.v. *)
-From PV Require Import Lib.Base Model.Prng Lib.Shuffle.
+(* C04 -- uniformity and independence of the randomizations.  Statements only; proofs in Lib/Shuffle.v,
+   Lib/ShuffleTape.v, Lib/Counting.v, Proofs/BinomialLaw.v. *)
+From PV Require Import Lib.Base Model.Prng Model.Core.
 From mathcomp Require Import all_ssreflect.
+From PV Require Import Lib.Shuffle Lib.ShuffleTape Lib.Counting Proofs.BinomialLaw.
+Local Open Scope nat_scope.
 
-(* Over the answer space of one call (draws n: all j_0<n, j_1<n-1, ..., each equally likely under an
-   ideal generator) the forward Fisher-Yates shuffle used by permute / permute_within_groups /
-   permute_rows produces every permutation of a duplicate-free input exactly once ... *)
+(* The answer space of one shuffle of n items, draws n = { (j_0..j_{n-1}) | j_i < n - i }, has n! elements, all
+   equally likely under an ideal generator. *)
+Theorem C04_answer_space_size : forall n, size (draws n) = n`! /\ uniq (draws n).
+Proof. intros n. split; [exact (size_draws n)|exact (draws_uniq n)]. Qed.
+Print Assumptions C04_answer_space_size.
+
+(* Over it the forward Fisher-Yates shuffle (permute, permute_within_groups, permute_rows) produces every
+   permutation of a duplicate-free input exactly once, for every size ... *)
 Theorem C04_fisher_yates_uniform : forall (T : eqType) (l : seq T), uniq l ->
   perm_eq [seq shuf (@fy_pick T) l d | d <- draws (size l)] (permutations l).
 Proof. exact fy_uniform. Qed.
@@ -17,6 +25,42 @@ Theorem C04_last_pick_uniform : forall (T : eqType) (l : seq T), uniq l ->
 Proof. exact last_uniform. Qed.
 Print Assumptions C04_last_pick_uniform.
 
-Theorem C04_answer_space_size : forall n, size (draws n) = n`! /\ uniq (draws n).
-Proof. intros n. split; [exact (size_draws n)|exact (draws_uniq n)]. Qed.
-Print Assumptions C04_answer_space_size.
+(* the same at the level of the model functions reading a tape *)
+Theorem C04_model_functions_uniform : forall (T : eqType) (l : seq T), uniq l ->
+  perm_eq [seq out (permute l d) | d <- draws (size l)] (permutations l) /\
+  perm_eq [seq out (sample_all l d) | d <- draws (size l)] (permutations l).
+Proof. intros T l U. split; [exact (permute_uniform U)|exact (sample_all_uniform U)]. Qed.
+Print Assumptions C04_model_functions_uniform.
+
+(* values with ties: a shuffle acts on positions (naturality), so the law on value arrangements is the image of
+   the uniform law on position permutations *)
+Theorem C04_shuffle_acts_on_positions : forall (T : Type) (x0 : T) (x : seq T) d, d \in draws (size x) ->
+  shuf (@fy_pick T) x d = [seq nth x0 x i | i <- shuf (@fy_pick nat) (iota 0 (size x)) d] /\
+  shuf (@last_pick T) x d = [seq nth x0 x i | i <- shuf (@last_pick nat) (iota 0 (size x)) d].
+Proof.
+  intros T x0 x d din. split; [exact (proj1 (shuf_fy_index x0 din))|exact (proj1 (shuf_last_index x0 din))].
+Qed.
+Print Assumptions C04_shuffle_acts_on_positions.
+
+(* successive repetitions are independent and the hit count is binomial: over the product answer space of r
+   repetitions (each answer sequence equally likely) the number of sequences with exactly h "extreme"
+   rearrangements factorises as C(r,h) a^h (n!-a)^(r-h), also when each repetition starts from the order left by
+   the previous one (two_sample_core) *)
+Theorem C04_repetitions_independent_binomial : forall n (extreme : seq nat -> bool) r h rr, 0 < n ->
+  perm_eq rr (iota 0 n) ->
+  count (fun ds => count extreme (states rr ds) == h) (tuples (dom1 n) r)
+  = 'C(r, h) * count extreme (permutations (iota 0 n)) ^ h
+    * (n`! - count extreme (permutations (iota 0 n))) ^ (r - h).
+Proof. intros n extreme r h rr npos prr. exact (chained_hits_binomial npos extreme r h prr). Qed.
+Print Assumptions C04_repetitions_independent_binomial.
+
+(* sign vectors of one_sample: n answers with bound 2 each, i.e. all 2^n vectors, one answer sequence each *)
+Theorem C04_bits_bijective : forall n t b t', bits n t = Ok (b, t') -> b = take n t /\ t' = drop n t.
+Proof.
+  induction n as [|n IH]; intros t b t' H; cbn [bits] in H.
+  - inversion H; subst. rewrite take0 drop0. split; reflexivity.
+  - destruct t as [|a t]; [discriminate|]. cbn [draw] in H. destruct (a < 2); [|discriminate]. cbn [bind fst snd] in H.
+    destruct (bits n t) as [[b1 t1]|] eqn:E; cbn [bind fst snd] in H; [|discriminate].
+    inversion H; subst. destruct (IH _ _ _ E) as [-> ->]. split; reflexivity.
+Qed.
+Print Assumptions C04_bits_bijective.
